@@ -49,6 +49,28 @@ func runOverlayTest(repo, testFile string) (string, bool) {
 			repl[filepath.Join(repo, rel)] = f
 		}
 	}
+	// optional schedule hooks:  // inject: <file relative to repo> :: <anchor text> :: <statement inserted before the anchor>
+	// builds an overlay copy of the real source file with one extra statement (a scheduling point)
+	for i, l := range strings.Split(string(src), "\n") {
+		if !strings.HasPrefix(l, "// inject:") {
+			continue
+		}
+		f := strings.SplitN(strings.TrimPrefix(l, "// inject:"), "::", 3)
+		if len(f) != 3 {
+			continue
+		}
+		unesc := strings.NewReplacer("\\n", "\n", "\\t", "\t")
+		rel, anchor, ins := strings.TrimSpace(f[0]), unesc.Replace(strings.TrimSpace(f[1])), unesc.Replace(strings.TrimSpace(f[2]))
+		orig, err := os.ReadFile(filepath.Join(repo, rel))
+		if err != nil || !strings.Contains(string(orig), anchor) {
+			return "inject: anchor not found in " + rel + ": " + anchor, false
+		}
+		patched := strings.Replace(string(orig), anchor, ins+"\n"+anchor, 1)
+		pf := fmt.Sprintf("%s.inject%d.go.txt", testFile, i)
+		os.WriteFile(pf, []byte(patched), 0o644)
+		tmpFiles = append(tmpFiles, pf)
+		repl[filepath.Join(repo, rel)] = pf
+	}
 	defer func() {
 		for _, f := range tmpFiles {
 			os.Remove(f)
